@@ -471,6 +471,24 @@ func inMakeNoZero(ex *Exec, fn *ssa.Function, args []Value) (Value, bool) {
 	return SliceV{arr: ex.newArrayCell(types.Typ[types.Uint8], n), len: n, cap: n}, true
 }
 
+// deterministic engine clock: 1 ms per reading (harnesses that quantify over time replace time.Now by a model)
+func (ex *Exec) clockTick() int64 {
+	ex.clockSeq++
+	ex.stubsSeen["clock: deterministic, 1 ms per reading (time.Now/Since)"] = true
+	return int64(ex.clockSeq) * 1000000
+}
+
+func inRuntimeNow(ex *Exec, fn *ssa.Function, args []Value) (Value, bool) {
+	ns := ex.clockTick()
+	sec := int64(1700000000) + ns/1000000000
+	nsec := ns % 1000000000
+	return TupleV{ex.tc.Const(BV(64), uint64(sec)), ex.tc.Const(BV(32), uint64(nsec)), ex.tc.Const(BV(64), uint64(1000000000+ns))}, true
+}
+
+func inRuntimeNano(ex *Exec, fn *ssa.Function, args []Value) (Value, bool) {
+	return ex.tc.Const(BV(64), uint64(1000000000+ex.clockTick())), true
+}
+
 func inIdentity(ex *Exec, fn *ssa.Function, args []Value) (Value, bool) { return args[0], true }
 
 func inNoop(ex *Exec, fn *ssa.Function, args []Value) (Value, bool) {
@@ -751,6 +769,10 @@ var intrinsicTable = map[string]intrinsicFn{
 	"sync/atomic.CompareAndSwapUint64":   inAtomicCAS,
 	"fmt.Sprintf":                        inSprintf,
 	"fmt.Errorf":                         inSprintf,
+	"time.runtimeNow":                    inRuntimeNow,
+	"time.now":                           inRuntimeNow,
+	"time.runtimeNano":                   inRuntimeNano,
+	"time.Sleep":                         inNoop,
 	"internal/abi.NoEscape":              inIdentity,
 	"internal/bytealg.MakeNoZero":        inMakeNoZero,
 	"(*strings.Builder).copyCheck":       inNoop,
